@@ -615,10 +615,23 @@ func ipsAreEqual(x, y net.IP) bool {
 // uniqueSortedLowerNames returns the set of all unique names in the input after all
 // of them are lowercased. The returned names will be in their lowercased form
 // and sorted alphabetically.
+// asciiLower lower-cases the ASCII letters of a name. DNS names compare
+// case-insensitively on those only: strings.ToLower also maps the Kelvin sign
+// to "k" and the dotted capital I to "i", which made names equal that are not.
+func asciiLower(s string) string {
+	b := []byte(s)
+	for i, c := range b {
+		if 'A' <= c && c <= 'Z' {
+			b[i] = c + 'a' - 'A'
+		}
+	}
+	return string(b)
+}
+
 func uniqueSortedLowerNames(names []string) (unique []string) {
 	nameMap := make(map[string]int, len(names))
 	for _, name := range names {
-		nameMap[strings.ToLower(name)] = 1
+		nameMap[asciiLower(name)] = 1
 	}
 	unique = make([]string, 0, len(nameMap))
 	for name := range nameMap {
